@@ -24,6 +24,7 @@ structure St where
   tl : Int := 0                           -- the terminal's size (`tickit_term_get_size`), which the root window follows
   tc : Int := 0
   prev : String := ""                     -- the implementation's previous observation line
+  reqs : List (Change × Id) := []         -- the restacking requests made since the last flush, oldest first (from the operation lines)
 deriving Inhabited
 
 /-! ### printing -/
@@ -161,6 +162,45 @@ def specFlush (o : ImplObs) (calls : String) : String :=
       | some (l, c, s) => s!"visible at {l},{c} shape {s} (window {chainEnd o.tree (treeFuel o.tree) 0})"
     let how := if calls = "~" then " (the flush made no terminal call)" else ""
     s!"cursor after flush is vis={o.term.vis} pos={o.term.line},{o.term.col} shape={o.term.shape}{how}; specification: {w}"
+
+def showChange : Change → String
+  | .raise => "raise"
+  | .raiseFront => "raisefront"
+  | .lower => "lower"
+  | .lowerBack => "lowerback"
+  | _ => "?"
+
+def showKids (cs : List Id) : String := if cs.isEmpty then "~" else ".".intercalate (cs.map toString)
+
+/-- The cursor clause over restacking requests, evaluated on the implementation's observations before and after a flush:
+    the requests made since the last flush take effect in the order they were made, so "not covered by another window" is
+    read on the observed tree stacked as the sibling lists found at the flush with the requests applied oldest first
+    (`cursorSpecReq`).  Says which window ends up where when the terminal cursor disagrees. -/
+def specFlushOrder (before after : ImplObs) (reqs : List (Change × Id)) : String :=
+  if reqs.isEmpty then "" else
+  let want := cursorSpecReq before.tree after.tree reqs
+  if after.term.matches want then ""
+  else
+    let st := stackApplied before.tree reqs
+    let t := withStacking after.tree st
+    -- the first window whose sibling list is not what the requests in request order give
+    let odd := (List.range after.tree.wins.size).find? fun i =>
+      match after.tree.wins[i]?, st.wins[i]? with
+      | some a, some b => !a.freed && a.children ≠ b.children
+      | _, _ => false
+    let stacking := match odd with
+      | some i =>
+        let a := match after.tree.wins[i]? with | some w => w.children | none => []
+        let b := match st.wins[i]? with | some w => w.children | none => []
+        let bb := match before.tree.wins[i]? with | some w => w.children | none => []
+        s!"; children of window {i} were {showKids bb} at the flush, the requests in request order give {showKids b}, the flush left {showKids a}"
+      | none => ""
+    let w := match want with
+      | none => s!"hidden ({whyHidden t})"
+      | some (l, c, s) => s!"visible at {l},{c} shape {s} (window {chainEnd t (treeFuel t) 0})"
+    let rs := ", ".intercalate (reqs.map fun (ch, i) => s!"{showChange ch} {i}")
+    s!"cursor after flush is vis={after.term.vis} pos={after.term.line},{after.term.col} shape={after.term.shape}; " ++
+    s!"specification with the requests [{rs}] applied in the order they were made: {w}{stacking}"
 
 /-- Parse the focus-event log of an observation. -/
 def parseEvents (s : String) : Option (List Event) :=
@@ -492,7 +532,12 @@ def stepOp (st : St) (ts : List String) (impl : String) : St × String × String
         match ts with
         | ["flush"] =>
           (match parseImpl impl with
-           | some o => specFlush o o.calls
+           | some o =>
+             let v := specFlush o o.calls
+             if v ≠ "" then v else
+             (match parseImpl st.prev with
+              | some b => specFlushOrder b o st.reqs
+              | none => "")
            | none => if impl.startsWith "ok" then "unparsable implementation observation" else "")
         | ["focus", ids] =>
           (match parseImpl st.prev, parseImpl impl, ids.toNat? with
@@ -544,7 +589,14 @@ def stepOp (st : St) (ts : List String) (impl : String) : St × String × String
           else if !good15B o.tree then "the observed tree violates the structural invariants of Good15 (child lists, root window)"
           else ""
         | none => ""
-      ({ st' with prev := impl }, m, sv)
+      -- the requests outstanding at the next flush
+      let reqs := match ts with
+        | ["flush"] => []
+        | [op, ids] => (match changeOf op, ids.toNat? with
+          | some ch, some id => st.reqs ++ [(ch, id)]
+          | _, _ => st.reqs)
+        | _ => st.reqs
+      ({ st' with prev := impl, reqs := reqs }, m, sv)
 
 def step (st : St) (ts : List String) (impl : String) : St × String × String :=
   match ts with
